@@ -63,3 +63,38 @@ fn readable_and_writable_futures_complete() {
     let t = Instant::now();
     while n != 11 { el.dispatch(Duration::from_millis(100), &mut n).unwrap(); assert!(t.elapsed() < Duration::from_secs(10)); }
 }
+
+/// a wait in one direction that is abandoned while pending must not keep a later wait in the OTHER direction
+/// from being armed with the poller
+#[test]
+fn a_wait_in_the_other_direction_is_armed_after_an_abandoned_one() {
+    use std::future::Future;
+    use std::sync::atomic::{AtomicUsize, Ordering};
+    use std::sync::Arc;
+    use std::task::{Context, Poll, Wake, Waker};
+    struct Flag(AtomicUsize);
+    impl Wake for Flag { fn wake(self: Arc<Self>) { self.0.fetch_add(1, Ordering::SeqCst); } }
+    let mut el: EventLoop<()> = EventLoop::try_new().unwrap();
+    let (a, _peer) = UnixStream::pair().unwrap();
+    let mut a = el.handle().adapt_io(a).unwrap();
+    let (f1, f2) = (Arc::new(Flag(AtomicUsize::new(0))), Arc::new(Flag(AtomicUsize::new(0))));
+    let (w1, w2) = (Waker::from(f1.clone()), Waker::from(f2.clone()));
+    {
+        // nothing to read: pending, armed for READ, then abandoned (a lost select!, a timeout, ...)
+        let mut fut = Box::pin(a.readable());
+        assert!(matches!(fut.as_mut().poll(&mut Context::from_waker(&w1)), Poll::Pending));
+    }
+    {
+        // the socket IS writable, but the adapter has not seen any readiness yet: pending, must be armed for WRITE
+        let mut fut = Box::pin(a.writable());
+        assert!(matches!(fut.as_mut().poll(&mut Context::from_waker(&w2)), Poll::Pending));
+    }
+    let t = Instant::now();
+    while f2.0.load(Ordering::SeqCst) == 0 {
+        el.dispatch(Duration::from_millis(50), &mut ()).unwrap();
+        assert!(t.elapsed() < Duration::from_secs(2), "the task waiting for writability was never woken");
+    }
+    assert_eq!(f1.0.load(Ordering::SeqCst), 0, "the abandoned waker was woken instead");
+    let mut fut = Box::pin(a.writable());
+    assert!(matches!(fut.as_mut().poll(&mut Context::from_waker(&w2)), Poll::Ready(())));
+}
